@@ -69,7 +69,10 @@ type Pipe struct {
 	CutAt     int64 // deliver only bytes < CutAt, then EOF (-1: none)
 	RErrAt    int   // read-call index that fails (-1: none)
 	RErrN     int   // bytes still returned with that error
-	RErr      error
+	// OnWriteCall runs at the start of the idx-th Write call, before its bytes
+	// are taken (single-threaded harnesses: stands in for a concurrent caller).
+	OnWriteCall func(idx int)
+	RErr        error
 	WErrAt    int // write-call index that fails (-1: none)
 	WErrN     int // bytes accepted (and delivered) before the error
 	WErr      error
@@ -263,6 +266,11 @@ func (p *Pipe) Write(b []byte) (int, error) {
 	if t := p.wtask(); t != nil {
 		t.Yield("pre-write:" + p.Name)
 	}
+	if p.OnWriteCall != nil {
+		// what another caller does while this write is in flight (the bytes
+		// have not been taken from b yet)
+		p.OnWriteCall(p.St.Writes)
+	}
 	return p.writeNoPre(b)
 }
 
@@ -395,6 +403,8 @@ type Conn struct {
 	// YieldOnClose / YieldOnDeadline make Close and SetWriteDeadline gates.
 	YieldOnClose    bool
 	YieldOnDeadline bool
+	// YieldOnErrInspect makes Temporary() of a timeout error a gate.
+	YieldOnErrInspect bool
 	Deadlines       int
 	WDeadline       time.Time
 	// EnforceDeadline makes a write fail with a timeout error when the write
@@ -421,11 +431,22 @@ func NewDuplex(s *kernel.Sched, tape *kernel.Tape, an, bn string) (a, b *Conn) {
 func (c *Conn) Read(b []byte) (int, error) { return c.In.Read(b) }
 // ErrTimeout is what a write returns when the connection's write deadline has
 // passed (EnforceDeadline).
-type timeoutError struct{}
+type timeoutError struct{ c *Conn }
 
-func (timeoutError) Error() string   { return "simnet: i/o timeout" }
-func (timeoutError) Timeout() bool   { return true }
-func (timeoutError) Temporary() bool { return true }
+func (timeoutError) Error() string { return "simnet: i/o timeout" }
+func (timeoutError) Timeout() bool { return true }
+
+// Temporary is a gate when the connection asks for it: code that inspects the
+// error (as net code does) between releasing a lock and recording the failure
+// can be preempted right there.
+func (e timeoutError) Temporary() bool {
+	if e.c != nil && e.c.YieldOnErrInspect {
+		if t := e.c.Out.wtask(); t != nil {
+			t.Yield("err-temporary:" + e.c.name)
+		}
+	}
+	return true
+}
 
 var ErrTimeout error = timeoutError{}
 
@@ -446,7 +467,7 @@ func (c *Conn) Write(b []byte) (int, error) {
 			} else if c.Out.S != nil {
 				c.OwnTimeoutSteps = append(c.OwnTimeoutSteps, c.Out.S.Now())
 			}
-			return 0, ErrTimeout
+			return 0, timeoutError{c}
 		}
 		return c.Out.writeNoPre(b)
 	}
